@@ -9,6 +9,8 @@ import (
 	"os"
 	"os/exec"
 	"reflect"
+	"strconv"
+	"strings"
 	"time"
 
 	"github.com/ohler55/ojg"
@@ -206,6 +208,7 @@ type rtEvent struct {
 	M        string `json:"m"`
 	Res      tvNode `json:"res"`
 	Orig     tvNode `json:"orig"`
+	Hang     bool   `json:"hang"`     // the call did not return within the watchdog period (child process killed)
 	TagKeyed bool   `json:"tagkeyed"` // the data was written with UseTags (keys are the json tag names)
 	Alias    bool   `json:"alias"`    // two positions of the result share a pointer target, map or slice backing array
 	OAlias   bool   `json:"oalias"`   // ... of the original
@@ -363,6 +366,69 @@ func rtOne(api rtAPI, rv reflect.Value) (ev rtEvent) {
 	return
 }
 
+const watchdog = 3 * time.Second
+
+// rtIsolated runs one round trip in a child process (encode rtchild <api index>) and waits at most the watchdog period.
+func rtIsolated(line []byte, ai int, api rtAPI, c *caseSpec) []byte {
+	self, _ := os.Executable()
+	cmd := exec.Command(self, "rtchild", fmt.Sprint(ai))
+	cmd.Stdin = bytes.NewReader(line)
+	var ob, eb bytes.Buffer
+	cmd.Stdout, cmd.Stderr = &ob, &eb
+	if err := cmd.Start(); err != nil {
+		fmt.Fprintln(os.Stderr, "rtchild does not start:", err)
+		os.Exit(2)
+	}
+	done := make(chan error, 1)
+	go func() { done <- cmd.Wait() }()
+	hang, why := false, ""
+	select {
+	case err := <-done:
+		if err != nil || len(bytes.TrimSpace(ob.Bytes())) == 0 {
+			hang, why = true, "the process died: "+trunc(lastLine(eb.String()))
+		}
+	case <-time.After(watchdog):
+		_ = cmd.Process.Kill()
+		<-done
+		hang, why = true, fmt.Sprintf("no return within %s", watchdog)
+	}
+	if !hang {
+		return bytes.TrimSpace(ob.Bytes())
+	}
+	rv, err := buildValue(c)
+	if err != nil {
+		fmt.Fprintln(os.Stderr, "encode:", err)
+		os.Exit(2)
+	}
+	return mustJSON(rtEvent{Ev: "rt", API: api.name, Hang: true, M: why, Orig: project(rv), Res: tvNode{"g": "other"}, TagKeyed: api.mode == "tags"})
+}
+
+func lastLine(s string) string {
+	for _, l := range strings.Split(s, "\n") {
+		if strings.HasPrefix(l, "fatal error") || strings.HasPrefix(l, "panic") || strings.HasPrefix(l, "runtime:") {
+			return l
+		}
+	}
+	return strings.TrimSpace(s)
+}
+
+// rtChild: one round trip of one case through one route, in this process.
+func rtChild(args []string) {
+	lines := readLines(os.Stdin)
+	var c caseSpec
+	if err := json.Unmarshal(lines[0], &c); err != nil {
+		panic(err)
+	}
+	ai, _ := strconv.Atoi(args[0])
+	rv, err := buildValue(&c)
+	if err != nil {
+		fmt.Fprintln(os.Stderr, "encode:", err)
+		os.Exit(2)
+	}
+	os.Stdout.Write(mustJSON(rtOne(rtAPIs[ai], rv)))
+	os.Stdout.Write([]byte("\n"))
+}
+
 func rtCases(args []string) {
 	fs := flag.NewFlagSet("rt", flag.ExitOnError)
 	casesOut := fs.String("cases", "", "write one case per trace line here")
@@ -386,9 +452,19 @@ func rtCases(args []string) {
 		for _, f := range c.F {
 			tagsOnly = tagsOnly || kinds[f.K].tagsOnly
 		}
+		isolate := c.Top != "" && kinds[c.Top].isolate
+		for _, f := range c.F {
+			isolate = isolate || kinds[f.K].isolate
+		}
 		var res [][]byte
-		for _, api := range rtAPIs {
+		for ai, api := range rtAPIs {
 			if tagsOnly && api.mode != "tags" {
+				continue
+			}
+			if isolate {
+				// recursive types: one child process per call under a watchdog; a call that does not return (or kills
+				// the process, e.g. by unbounded recursion) is recorded as an event with hang = true
+				res = append(res, rtIsolated(lines[i], ai, api, &c), mustJSON(map[string]any{"f": c.F, "top": c.Top, "v": c.V, "api": api.name}))
 				continue
 			}
 			for k := 0; k < reps; k++ {
